@@ -14,6 +14,9 @@ typedef long ssize_t;
 typedef struct strref { const char *ptr; size_t len; } strref;
 
 static inline strref strref_make(const char *p, size_t n) { strref r; r.ptr = p; r.len = n; return r; }
+/* StringRef(const char *): the length is wherever the first NUL byte happens to be -- an arbitrary value as far as a length-delimited payload is concerned */
+size_t nondet_cstr_len(void);
+static inline strref strref_cstr_any(const char *p) { strref r; r.ptr = p; r.len = nondet_cstr_len(); return r; }
 static inline const char *strref_data(const strref *s) { return s->ptr; }
 static inline size_t strref_size(const strref *s) { return s->len; }
 static inline _Bool strref_empty(const strref *s) { return s->len == 0; }
